@@ -53,6 +53,9 @@ def machine(mir, sym, log):
         log.append(("read", "tracked" if "GetUntracked" not in callee else "untracked", key, log_depth[0]))
         return ret(st, st.mem[key])
 
+    def stale_key(key):
+        return ("stale", key)
+
     def s_rw_set(m_, st, args, callee):
         s = m_.deref_all(st, args[0])
         if isinstance(s, tuple) and s[0] == "write":
@@ -60,12 +63,21 @@ def machine(mir, sym, log):
         key = cell_of(m_, st, args[0])
         log.append(("write", "set", key, log_depth[0]))
         st.mem[key] = args[1]
+        st.mem[stale_key(key)] = z3.BoolVal(False)       # Set::set notifies every subscriber: none is stale afterwards
         return ret(st, ("unit",))
 
     def s_write_untracked(m_, st, args, callee):
         key = cell_of(m_, st, args[0])
         log.append(("write", "guard", key, log_depth[0]))
+        st.mem[stale_key(key)] = z3.BoolVal(True)        # a write without notification: subscribers may now be stale
         return ret(st, ("guard", key))
+
+    def s_deferred_effect(m_, st, args, callee):
+        # Effect::new / Effect::new_isomorphic: the closure first runs at the next flush of the executor, not now
+        pend = list(st.mem.get(("pending_effects",), ()))
+        pend.append(args[0])
+        st.mem[("pending_effects",)] = tuple(pend)
+        return ret(st, ("effect",))
 
     def s_guard_deref_mut(m_, st, args, callee):
         g = m_.deref_all(st, args[0])
@@ -101,6 +113,8 @@ def machine(mir, sym, log):
         (r"^<leptos::prelude::RwSignal<L> as leptos::prelude::(Get|GetUntracked)>::get(_untracked)?$", s_rw_get),
         (r"^<leptos::prelude::RwSignal<L> as leptos::prelude::Set>::set$", s_rw_set),
         (r"^<leptos::prelude::RwSignal<L> as leptos::prelude::Write>::write_untracked$", s_write_untracked),
+        (r"^leptos::prelude::Effect::<\w+>::new(_isomorphic|_sync)?::<", s_deferred_effect),
+        (r"^<leptos::prelude::WriteSignal<std::option::Option<L>> as leptos::prelude::Set>::set$", lambda m_, st, args, callee: ret(st, ("unit",))),
         (r"^<UntrackedWriteGuard<L> as DerefMut>::deref_mut$", s_guard_deref_mut),
         (r"^<UntrackedWriteGuard<L> as Deref>::deref$", s_guard_deref_mut),
         (r"^<<S as scopes::Scope<L>>::Keys as locale_traits::LocaleKeys>::from_locale$", s_from_locale),
@@ -115,6 +129,21 @@ def machine(mir, sym, log):
     ]
     m.summaries = extra + [x for x in m.summaries if not x[0].startswith(r"^I18nContext::<L>::get_locale_untracked")]
     return m
+
+
+def flush(m, st):
+    """Run the effects scheduled so far (their first run), in creation order -> list of states."""
+    pend = st.mem.get(("pending_effects",), ())
+    states = [st]
+    for clos in pend:
+        nxt = []
+        for st0 in states:
+            for st1, _ in m.call_closure(st0, clos, [c15.opt(z3.BoolVal(False), None)]):
+                nxt.append(st1)
+        states = nxt
+    for st0 in states:
+        st0.mem[("pending_effects",)] = ()
+    return states
 
 
 def new_cell(m, st, name, value):
@@ -171,6 +200,8 @@ def decide_step(mir, setter, set_via, get_via, scoped_before):
     X, Y, V = z3.Const("old_locale_of_A", LOC), z3.Const("locale_of_B", LOC), z3.Const("value_set", LOC)
     a = new_cell(m, st, "cell_A", X)
     b = new_cell(m, st, "cell_B", Y)
+    # subscribers of A may be stale already (an earlier set_locale_untracked): arbitrary pre-state
+    st.mem[("stale", a)] = z3.Bool("subscribers_of_A_stale_before")
     A = ctx_of(a)
     res = {"kind": "step", "setter": setter, "set_via": set_via, "get_via": get_via, "views_made": "before" if scoped_before else "after",
            "status": "unsat", "paths": 0, "solver_checks": 0, "solver_s": 0.0}
@@ -192,6 +223,10 @@ def decide_step(mir, setter, set_via, get_via, scoped_before):
                     return res, m
                 if not prove(st3, st3.mem[b] == Y, "cell of another context unchanged", res):
                     return res, m
+                if setter == "set_locale":
+                    # set_locale "notifies all subscribers": whatever happened before, no subscriber is left stale
+                    if not prove(st3, z3.Not(st3.mem[("stale", a)]), "set_locale notifies the subscribers (a write through Set::set) on every path", res):
+                        return res, m
                 for getter in ("get_locale", "get_locale_untracked", "get_keys", "get_keys_untracked"):
                     for st4, v in m.call_fn(m.fn(CTX_IMPL % getter), [g], st3.copy()):
                         if getter.startswith("get_keys"):
@@ -263,6 +298,45 @@ def decide_isolation(mir):
     return res, m
 
 
+def decide_create_set_flush(mir, entry, setter):
+    """A context is created, its locale is set in the same turn, then the executor runs what creation scheduled:
+    the value set must survive (effects installed by the creation must not write an older value back)."""
+    sym = c15.fresh("")
+    log = []
+    m = machine(mir, sym, log)
+    st = mir2.St()
+    res = {"kind": "create_set_flush", "entry": entry, "setter": setter, "status": "unsat", "paths": 0, "solver_checks": 0, "solver_s": 0.0}
+    if entry == "top":
+        fn = m.fn(r"^fn init_i18n_context_with_options\(")
+        options = ("tuple", (sym["enable_cookie"], ("cookie_name",), ("cookie_options",), ("locales_options",)))
+        outs = m.call_fn(fn, [options], st)
+    else:
+        P0 = z3.Const("parent_locale_cell", LOC)
+        sym["parent"] = P0
+        p = new_cell(m, st, "cell_parent", P0)
+        sym["parent_ctx"] = ctx_of(p)
+        fn = m.fn(r"^fn init_i18n_subcontext_with_options\(")
+        init = c15.opt(sym["has_init"], ("sig", sym["init"]))
+        name = c15.opt(sym["has_name"], ("cookie_name",))
+        outs = m.call_fn(fn, [init, name, c15.opt(z3.BoolVal(False), None), c15.opt(z3.BoolVal(False), None)], st)
+    W = z3.Const("value_set_right_after_creation", LOC)
+    for st1, v in outs:
+        v = m.deref_all(st1, v)
+        rw = v[1][0]
+        if not (isinstance(rw, tuple) and rw[0] == "rw"):
+            raise Unsupported("context value %r" % (v,))
+        c = rw[1]
+        for st2, _ in m.call_fn(m.fn(CTX_IMPL % setter), [v, W], st1):
+            for st3 in flush(m, st2):
+                res["paths"] += 1
+                if not prove(st3, st3.mem[c] == W, "the value set right after creation survives the first run of the effects the creation scheduled", res):
+                    return res, m
+    if res["paths"] == 0:
+        raise Unsupported("no path")
+    res["solver_s"] = round(res["solver_s"], 3)
+    return res, m
+
+
 def run(tier, seed):
     prop = "C16"
     t0 = time.time()
@@ -295,6 +369,19 @@ def run(tier, seed):
             sat.append(r)
         elif r["status"] != "unsat":
             inconclusive.append("step %s: %s" % (setter, r["status"]))
+    for entry in ("top", "sub"):
+        for setter in ("set_locale", "set_locale_untracked"):
+            try:
+                r, m = decide_create_set_flush(mir, entry, setter)
+                calls |= m.calls_seen
+                fns |= m.mir_fns_run
+                runs.append(r)
+                if r["status"] == "sat":
+                    sat.append(r)
+                elif r["status"] != "unsat":
+                    inconclusive.append("create_set_flush %s: %s" % (entry, r["status"]))
+            except Unsupported as e:
+                inconclusive.append("create_set_flush %s %s: UNSUPPORTED %s" % (entry, setter, e))
     try:
         r, m = decide_isolation(mir)
         calls |= m.calls_seen
@@ -383,6 +470,11 @@ def history_program(histories):
                 lines.append("            %s.%s(loc(%s)); settle();" % (op[1], "set_locale" if op[0] == "set" else "set_locale_untracked", json.dumps(op[2])))
             elif op[0] == "get":
                 lines.append("            println!(\"G\\t%d\\t{}\\t{}\", n, %s.get_locale_untracked().as_str()); n += 1;" % (hi, op[1]))
+            elif op[0] == "mk_memo":
+                # a subscriber: a memo over the tracked getter, evaluated once now
+                lines.append("            let %s = { let c = %s; Memo::new(move |_| c.get_locale()) }; let _ = %s.get_untracked();" % (op[2], op[1], op[2]))
+            elif op[0] == "read_memo":
+                lines.append("            println!(\"G\\t%d\\t{}\\t{}\", n, %s.get_untracked().as_str()); n += 1;" % (hi, op[1]))
             elif op[0] == "mk_t":
                 # a reactive accessor created now, read later: t!(ctx, key) is a closure
                 lines.append("            let %s = leptos_i18n::t!(%s, %s);" % (op[2], op[1], op[3]))
@@ -404,12 +496,28 @@ def simulate(ops):
     cell = {"a": "A"}
     val = {"A": "en"}
     suffix, suffix_of_leaf = {}, {}
+    memo_val = {}
+    memo_dirty = set()
     out = []
     for op in ops:
         if op[0] in ("set", "setu"):
             val[cell[op[1]]] = op[2]
+            if op[0] == "set":
+                # set_locale notifies: every subscriber of that cell is marked dirty; a memo is lazy, it re-evaluates
+                # when it is next read and then sees the value the cell holds at that moment
+                for mn in memo_val:
+                    if cell[mn] == cell[op[1]]:
+                        memo_dirty.add(mn)
         elif op[0] == "get":
             out.append(val[cell[op[1]]])
+        elif op[0] == "mk_memo":
+            cell[op[2]] = cell[op[1]]
+            memo_val[op[2]] = val[cell[op[1]]]
+        elif op[0] == "read_memo":
+            if op[1] in memo_dirty:
+                memo_val[op[1]] = val[cell[op[1]]]
+                memo_dirty.discard(op[1])
+            out.append(memo_val[op[1]])
         elif op[0] == "mk_t":
             cell[op[2]] = cell[op[1]]
             suffix[op[2]] = {"k": "", "leaf": " leaf"}.get(op[3], " inner") if op[3] != "leaf" else suffix_of_leaf[op[1]]
@@ -432,11 +540,16 @@ def random_histories(tier, seed):
         names = ["a"]
         depth = {"a": 0}          # 0: root keys, 1: scoped to grp, 2: scoped to grp.inner
         tnames = []
+        mnames = []
         ops = []
         for _k in range(rng.randrange(4, 12)):
             r = rng.random()
             who = rng.choice(names)
-            if r < 0.12 and len(tnames) < 4:
+            if r < 0.06 and len(mnames) < 3:
+                mn = "m%d" % (len(mnames) + 1)
+                ops.append(("mk_memo", who, mn))
+                mnames.append(mn)
+            elif r < 0.12 and len(tnames) < 4:
                 tn = "t%d" % (len(tnames) + 1)
                 ops.append(("mk_t", who, tn, "k" if depth[who] == 0 else "leaf"))
                 tnames.append(tn)
@@ -464,6 +577,13 @@ def random_histories(tier, seed):
             ops.append(("get", n))
         for tn in tnames:
             ops.append(("call_t", tn))
+        if mnames:
+            # the last word is a notifying set of the value already stored without notification
+            who = rng.choice(names)
+            l = rng.choice(c15.NAMES)
+            ops += [("setu", who, l), ("set", who, l)]
+        for mn in mnames:
+            ops.append(("read_memo", mn))
         hs.append(ops)
     return hs
 
@@ -523,6 +643,8 @@ def native_confirm(r):
         hs.append([("sub", "a", "s1", None), (setter, "a", "fr"), ("get", "s1"), ("get", "a")])
         hs.append([("sub", "a", "s1", None), (setter, "s1", "de"), ("get", "a"), ("get", "s1")])
         hs.append([("sub", "a", "s1", "es"), (setter, "a", "fr"), ("get", "s1"), ("get", "a")])
+        hs.append([("mk_memo", "a", "m1"), ("setu", "a", "fr"), ("set", "a", "fr"), ("read_memo", "m1")])
+        hs.append([("scope", "a", "v1", "grp"), ("mk_memo", "v1", "m1"), ("setu", "a", "de"), ("set", "v1", "de"), ("read_memo", "m1")])
     got = run_histories(hs)
     bad = [{"history": [list(o) for o in ops], "observed": got.get(i), "expected": simulate(ops)} for i, ops in enumerate(hs) if got.get(i) != simulate(ops)]
     return bool(bad), {"histories": len(hs), "mismatches": bad[:4]}
